@@ -11,7 +11,7 @@ KINDS = ["stock", "future", "mixed", "t0", "noreinvest", "fail", "analyser", "in
 def build(spec):
     rnd = random.Random(spec["seed"])
     kind = spec["kind"]
-    wf = {"stock": False, "t0": False, "noreinvest": False, "future": True, "mixed": True, "initpos": True, "rebalance": False, "splithold": False, "decsell": False}.get(kind)
+    wf = {"stock": False, "t0": False, "noreinvest": False, "future": True, "mixed": True, "initpos": True, "rebalance": False, "splithold": False, "decsell": False, "roundprice": False}.get(kind)
     opts = {"p_delist": 0, "p_sus": 0, "p_thin": 0} if kind == "rebalance" else None
     if kind == "splithold":        # a holding carried over a split (share quantities recomputed with the decimal module)
         opts = {"kinds": ["CS"], "p_delist": 0, "p_sus": 0, "p_split": 1.0, "p_div": 0}
@@ -43,6 +43,9 @@ def build(spec):
         f0 = S["futures"][0]
         cfgk["base_extra"] = dict(cfgk.get("base_extra") or {}, init_positions="%s:%d" % (f0["id"], rnd.choice([2, 3, -2])))
         cfgk["_no_future_orders"] = True
+    if kind == "roundprice":
+        # limit prices are rounded to the tick (base.round_price): the rounding helper works under a local decimal context that must not outlive the call
+        cfgk["base_extra"] = dict(cfgk.get("base_extra") or {}, round_price=True)
     if kind == "t0":
         cfgk["accounts_mod"]["stock_t1"] = False
     if kind == "stock":
